@@ -8,7 +8,7 @@ from vlib.core import Infra, VERIF, read_ndjson
 
 LEVEL = {"C34": "model_checking", "C01": "model_checking"}
 # donors: checks whose drivers execute model-generated programs through host.World
-QUICK_DONORS = ["C22", "C02", "C25", "C20", "C10", "C52", "C49", "C26"]
+QUICK_DONORS = ["C22", "C10", "C02", "C25"]
 ALL_DONORS = ["C22", "C02", "C04", "C05", "C20", "C25", "C26", "C27", "C49", "C10", "C52", "C07", "C09", "C48", "C29", "C18", "C19", "C21"]
 
 
